@@ -1,11 +1,149 @@
-import CalicoVerif.Model.C03
+import CalicoVerif.Proofs.C03Resolver
 /-!
 C03 — Each local endpoint gets exactly its matching policies, correctly ordered.
+
+Model: `CalicoVerif.Model.C03` (PolicySorter incl. both btrees, TierLess, PolKVLess,
+ExtractPolicyMetadata, PolicyResolver incl. pendingPolicyUpdates / dirty set / Flush) and
+`Model.C02.tierInfoToProto` (the ingress/egress split done by the EventSequencer).  Which endpoints a
+policy matches is an input relation (the real ActiveRulesCalculator supplies it in the harness).
+
+What is PROVED, for ALL histories of resolver inputs with flushes anywhere (`runR`): `Flush` never hits
+the `Sorted()` panic, and every emitted endpoint update is the sorter's output — tiers ascending under
+`TierLess`, policies inside a tier ascending under `PolKVLess` — filtered to the policies that match
+the endpoint (only matching policies, order preserved, empty tiers dropped); the ingress/egress split
+follows the policy's types.  What is NOT proved (hence `_partial`): that the sorter holds *exactly*
+the matched policies with their *current* metadata after every history (the refinement
+`resolver_eq_spec` of DESIGN §6).  That part is checked on the real code by the harness oracle, which
+recomputes every endpoint's list from scratch from the datastore state; it is the part that was false
+before commit c70bf97 (see the regression example at the end).
 -/
 namespace CalicoVerif.C03
 open CalicoVerif.C02
 
-/-- placeholder first theorem. -/
-theorem flush_init : ({} : Resolver).flush = some ({}, []) := by decide
+/-- Main theorem (partial, see header): for every history, no panic and every emitted update is
+`GoodUpdate`: ∃ a tier list sorted by `TierLess` whose tiers' policies are sorted by `PolKVLess`, of
+which the endpoint's tier list is the `filterTiers` image w.r.t. the match relation at that flush. -/
+theorem resolver_output_sorted_matching_partial (hist : List RStep) :
+    ∃ r outs, runR {} hist = some (r, outs) ∧ ∀ o ∈ outs, ∀ c ∈ o.2, GoodUpdate o.1 c :=
+  runR_spec SInv.init hist
+
+/-- `only_matching` + `policies_sorted` + `tiers_sorted`, spelled out for one emitted update. -/
+theorem goodUpdate_meaning {matched : List (PolicyKey × EpKey)} {e : EpKey} {u : EpUpd}
+    (h : GoodUpdate matched (.endpointUpdate e (some u))) :
+    -- only policies that match the endpoint are listed, and no listed tier is empty
+    (∀ t ∈ u.tiers, t.policies ≠ [] ∧ ∀ kv ∈ t.policies, (kv.key, e) ∈ matched) ∧
+    -- inside every tier the policies ascend under PolKVLess (order, unset last, then name/namespace/kind)
+    (∀ t ∈ u.tiers, Sorted polKVLess t.policies) ∧
+    -- the tiers are a subsequence of a TierLess-ascending tier list (valid first, order, unset last, name)
+    (∃ ts : List TierInfo, Sorted tierLess (ts.map TierInfo.key) ∧ (u.tiers.map (·.name)).Sublist (ts.map (·.name)) ∧
+      ∀ t' ∈ u.tiers, ∃ t ∈ ts, t'.name = t.name ∧ t'.order = t.order ∧ t'.defaultAction = t.defaultAction ∧
+        t'.policies = t.policies.filter (fun kv => decide ((kv.key, e) ∈ matched))) := by
+  obtain ⟨ts, h1, h2, h3⟩ := h
+  obtain ⟨s1, _, s3⟩ := filterTiers_spec matched e ts
+  rw [h3]
+  refine ⟨fun t ht => ⟨(s1 t ht).1, (s1 t ht).2.1⟩, ?_, ts, h1, s3, fun t' ht' => (s1 t' ht').2.2⟩
+  intro t' ht'
+  obtain ⟨t, ht, _, _, _, hp⟩ := (s1 t' ht').2.2
+  rw [hp]
+  exact List.Pairwise.filter _ (h2 t ht)
+
+/-- What the two comparators mean. `none` order = unset (tier) / default +Inf (policy). -/
+theorem tierLess_meaning (a b : TierKey) : tierLess a b = true ↔
+    (rlt (tierRank a) (tierRank b) ∨ (tierRank a = tierRank b ∧ a.name < b.name)) := by
+  obtain ⟨an, av, ao⟩ := a
+  obtain ⟨bn, bv, bo⟩ := b
+  cases av <;> cases bv <;> cases ao <;> cases bo <;>
+    simp [tierLess, tierRank, rlt, Prod.ext_iff] <;> (try omega)
+  all_goals
+    rename_i x y
+    by_cases hxy : x = y
+    · subst hxy; simp
+    · simp [hxy]
+
+theorem polKVLess_meaning (a b : PolKV) : polKVLess a b = true ↔
+    (orderLt a.val.order b.val.order = true ∨ (a.val.order = b.val.order ∧ tieStr a.key < tieStr b.key)) := by
+  unfold polKVLess
+  by_cases h : a.val.order = b.val.order
+  · simp only [h, if_true, decide_eq_true_eq, true_and]
+    constructor
+    · exact Or.inr
+    · rintro (x | x)
+      · cases hb : b.val.order <;> simp [orderLt, hb] at x
+      · exact x
+  · simp [h]
+
+/-- Both comparators are strict weak orders (what google/btree needs to behave like a sorted set). -/
+theorem comparators_strict_weak : SWO tierLess ∧ SWO polKVLess := ⟨swo_tierLess, swo_polKVLess⟩
+
+/-- The PolicySorter keeps both btrees sorted and every key of the tier btree resolvable in the tier
+map, whatever sequence of policy / tier updates it sees. -/
+theorem sorter_invariant (s : Sorter) (h : SInv s) :
+    (∀ k m, SInv (s.updatePolicy k m).1) ∧ (∀ n v, SInv (s.onTierUpdate n v).1) ∧
+    ∃ ts, s.sortedOut = some ts ∧ ts.map TierInfo.key = s.sortedTiers ∧ ∀ t ∈ ts, Sorted polKVLess t.policies :=
+  ⟨fun k m => h.updatePolicy k m, fun n v => h.onTierUpdate n v, sortedOut_spec h⟩
+
+/-- `tierInfoToProtoTierInfo`: per tier and category (normal / untracked / pre-DNAT / forward) the
+ingress list is exactly the category's policies that govern ingress, in order; the egress list those
+that govern egress (never for pre-DNAT); a tier is listed in a category iff one list is non-empty. -/
+theorem split_by_type (ts : List TierInfo) :
+    (tierInfoToProto ts).normal = ts.flatMap (fun t => optTier ⟨t.name, t.defaultAction,
+      keysWhere t.policies (fun p => isNormal p && p.val.ingress), keysWhere t.policies (fun p => isNormal p && p.val.egress)⟩) ∧
+    (tierInfoToProto ts).untracked = ts.flatMap (fun t => optTier ⟨t.name, "Pass",
+      keysWhere t.policies (fun p => isUntracked p && p.val.ingress), keysWhere t.policies (fun p => isUntracked p && p.val.egress)⟩) ∧
+    (tierInfoToProto ts).preDNAT = ts.flatMap (fun t => optTier ⟨t.name, "Pass",
+      keysWhere t.policies (fun p => isPreDNAT p && p.val.ingress), []⟩) ∧
+    (tierInfoToProto ts).forward = ts.flatMap (fun t => optTier ⟨t.name, t.defaultAction,
+      keysWhere t.policies (fun p => isForward p && p.val.ingress), keysWhere t.policies (fun p => isForward p && p.val.egress)⟩) :=
+  tierInfoToProto_spec ts
+
+/-- `ExtractPolicyMetadata`: no Types = ingress and egress; otherwise exactly the listed ones
+(case-insensitively); an empty tier name means the default tier. -/
+theorem extract_types (p : PolicyIn) :
+    ((extractPolicyMetadata p).ingress = true ↔ (p.types = [] ∨ ∃ t ∈ p.types, equalFoldAscii t "ingress" = true)) ∧
+    ((extractPolicyMetadata p).egress = true ↔ (p.types = [] ∨ ∃ t ∈ p.types, equalFoldAscii t "egress" = true)) ∧
+    (extractPolicyMetadata p).order = p.order ∧
+    (extractPolicyMetadata p).tier = (if p.tier = "" then "default" else p.tier) := by
+  simp [extractPolicyMetadata, List.isEmpty_iff]
+
+/-! ### non-vacuity and regression -/
+
+private def P : PolicyKey := ⟨"p", "", "gnp"⟩
+private def Q : PolicyKey := ⟨"q", "ns", "np"⟩
+private def R : PolicyKey := ⟨"r", "", "gnp"⟩
+private def E : EpKey := .wep "e"
+
+/-- three tiers (equal orders, an unset order), three matching policies (an unset order, an untracked
+one) and one non-matching policy: the emitted list is t0 (order 1, name before t1), then t1 with q
+(order 10) before p (default order); the tier of the non-matching policy is not listed. -/
+example : (runR {} [.ev (.status true),
+    .ev (.tier "t1" (some (some 1, "Deny"))), .ev (.tier "t2" (some (none, "Pass"))), .ev (.tier "t0" (some (some 1, "Pass"))),
+    .ev (.endpoint E (some ⟨"x", []⟩)),
+    .ev (.matchStarted P E), .ev (.policy P (some ⟨"t1", none, false, false, false, []⟩)),
+    .ev (.matchStarted Q E), .ev (.policy Q (some ⟨"t1", some 10, true, false, false, []⟩)),
+    .ev (.matchStarted R E), .ev (.policy R (some ⟨"t0", some 10, false, false, false, []⟩)),
+    .ev (.policy ⟨"z", "", "gnp"⟩ (some ⟨"t2", some 1, false, false, false, []⟩)),
+    .flush]).map (fun x => x.2.map (·.2)) =
+  some [[.endpointUpdate E (some ⟨⟨"x", []⟩,
+    [⟨"t0", some 1, "Pass", true, [⟨R, ⟨some 10, false, false, false, true, true, "t0"⟩⟩]⟩,
+     ⟨"t1", some 1, "Deny", true, [⟨Q, ⟨some 10, true, false, false, true, true, "t1"⟩⟩,
+                                    ⟨P, ⟨none, false, false, false, true, true, "t1"⟩⟩]⟩]⟩)]] := by decide
+
+/-- Regression for the defect fixed in /repo commit c70bf97 ("drop pending policy update when the
+policy's last match stops"): a policy matches and stops matching before the first flush, is then
+changed (other tier, other order, no longer untracked) while unmatched, and matches again.  The model
+of the repaired code emits it with its CURRENT metadata (tier t1, order 5).  With the line
+`pending := sdel p r.pending` removed from `Resolver.step (.matchStopped …)` — the code before the
+fix — the same history emits the STALE metadata (tier t2, order 10, untracked); the harness oracle
+reports that on the real code with signature `stale-metadata-unmatched-pending`. -/
+example : (runR {} [.ev (.tier "t1" (some (some 1, "Deny"))), .ev (.tier "t2" (some (some 2, "Pass"))),
+    .ev (.endpoint E (some ⟨"x", []⟩)),
+    .ev (.matchStarted P E), .ev (.policy P (some ⟨"t2", some 10, true, false, false, []⟩)),
+    .ev (.matchStopped P E),
+    .ev (.status true), .flush,
+    .ev (.policy P (some ⟨"t1", some 5, false, false, false, []⟩)),
+    .ev (.matchStarted P E), .flush]).map (fun x => x.2.map (·.2)) =
+  some [[.endpointUpdate E (some ⟨⟨"x", []⟩, []⟩)],
+        [.endpointUpdate E (some ⟨⟨"x", []⟩,
+          [⟨"t1", some 1, "Deny", true, [⟨P, ⟨some 5, false, false, false, true, true, "t1"⟩⟩]⟩]⟩)]] := by decide
 
 end CalicoVerif.C03
